@@ -476,7 +476,11 @@ theorem C04_dead_pid_dropped_by_check (u pid : Nat) (l : List Nat) (s : State)
 /-- **what a successful `Popen()` registers**: the returned pid is the kernel's pid counter (fresh);
     afterwards the watcher `u` lists it (appended at the end), every other watcher lists what it
     listed, the `Process` object with the chosen `wid` exists and the pid is in the process table;
-    identity counter, arbiter, frames, futures are untouched. -/
+    identity counter, arbiter, frames, futures are untouched.
+
+    (Restated: `Process.started` is the time BEFORE the fork, `s.k.now`; the kernel clock afterwards is
+    that time plus the `spawnMs` the fork took under the behaviour used — it used to read
+    `started := s1.k.now`, which holds only when the fork takes no time.) -/
 theorem C04_spawnAdopt_registers (u wid pid : Nat) (s s1 : State)
     (h : spawnAdopt u wid s = (some pid, s1)) (hw : ∃ w ∈ s.ws, w.uid = u) :
     pid = s.k.nextPid ∧
@@ -484,7 +488,8 @@ theorem C04_spawnAdopt_registers (u wid pid : Nat) (s s1 : State)
     (∀ x, x ≠ u → (getW x s1).1 = (getW x s).1) ∧
     (∃ o ∈ s1.objs, o.pid = pid ∧ o.wid = wid) ∧
     pid ∈ s1.k.procs.map (·.pid) ∧
-    s1.objs = s.objs ++ [{ pid := pid, wid := wid, started := s1.k.now }] ∧
+    s1.objs = s.objs ++ [{ pid := pid, wid := wid, started := s.k.now }] ∧
+    s1.k.now = s.k.now + s.k.tick.behavAt.spawnMs ∧
     s1.a = s.a ∧ s1.nextId = s.nextId ∧ s1.tops = s.tops ∧ s1.frames = s.frames ∧ s1.ready = s.ready := by
   cases hr : (s.k.spawn).2 with
   | none => rw [spawnAdopt_none u wid s hr] at h; cases h
@@ -497,7 +502,7 @@ theorem C04_spawnAdopt_registers (u wid pid : Nat) (s s1 : State)
     obtain ⟨hpid, n, _, hpr⟩ := spawn_some (k := s.k) (k' := (s.k.spawn).1) (pid := p) (by rw [← hr])
     have hfind : ∀ x, (getW x { s with
         k := (s.k.spawn).1,
-        objs := s.objs ++ [{ pid := p, wid := wid, started := (s.k.spawn).1.now }],
+        objs := s.objs ++ [{ pid := p, wid := wid, started := s.k.now }],
         log := if s.blocked then s.log else s.log ++ [Obs.spawn p ((s.ws.find? (·.uid = u)).getD defaultWatcher).name wid],
         ws := s.ws.map fun w => if w.uid = u then { w with pids := w.pids ++ [p] } else w }).1 =
         ((s.ws.find? (fun w => decide (w.uid = x))).map
@@ -505,7 +510,9 @@ theorem C04_spawnAdopt_registers (u wid pid : Nat) (s s1 : State)
       intro x
       simp only [getW]
       rw [find_map_upd x u (fun w => { w with pids := w.pids ++ [p] }) (fun _ => rfl)]
-    refine ⟨hpid, ?_, ?_, ⟨_, List.mem_append_right _ (List.mem_singleton.mpr rfl), rfl, rfl⟩, ?_, rfl, rfl, rfl, rfl, rfl, rfl⟩
+    have hnow : (s.k.spawn).1.now = s.k.now + s.k.tick.behavAt.spawnMs :=
+      spawn_some_now (k := s.k) (k' := (s.k.spawn).1) (pid := p) (by rw [← hr])
+    refine ⟨hpid, ?_, ?_, ⟨_, List.mem_append_right _ (List.mem_singleton.mpr rfl), rfl, rfl⟩, ?_, rfl, hnow, rfl, rfl, rfl, rfl, rfl⟩
     · rw [hfind u]
       obtain ⟨w, hwm, hwu⟩ := hw
       cases hf : s.ws.find? (fun w => decide (w.uid = u)) with
@@ -628,9 +635,9 @@ theorem deliverTop_frame (tid : Nat) (v : Val) (s : State) :
     exact ⟨h1, h3⟩
 
 /-- the rest of one `spawn_process` attempt once `Popen()` has succeeded: the hook, then either the
-    detached kill of the rejected worker or the `spawn` event -/
-def spawnAfterAdopt (rec : Rec) (wuid pid : Nat) : M SpawnRes := do
-  let now ← nowMs
+    detached kill of the rejected worker or the `spawn` event (`now` = `process.started`, the time
+    read before the fork, is what a successful attempt returns) -/
+def spawnAfterAdopt (rec : Rec) (wuid pid now : Nat) : M SpawnRes := do
   let r ← callHook wuid "after_spawn"
   if !r then
     let tid ← newTop [.popProc wuid pid]
@@ -648,13 +655,16 @@ theorem spawnTry_step (rec : Rec) (u tries wid : Nat) (s : State)
     spawnTry rec u (tries + 1) s =
       match spawnAdopt u wid s with
       | (none, s1) => spawnTry rec u tries s1
-      | (some pid, s1) => spawnAfterAdopt rec u pid s1 := by
+      | (some pid, s1) => spawnAfterAdopt rec u pid s.k.now s1 := by
   conv => lhs; unfold spawnTry
   simp only [bind]
   have h1 : (getW u s).2 = s := rfl
   have h2 : (usedWids u s).2 = s := rfl
   rw [h1, h2, hwid]
   simp only
+  have h3 : (nowMs s).2 = s := rfl
+  have h4 : (nowMs s).1 = s.k.now := rfl
+  rw [h3, h4]
   cases hsp : spawnAdopt u wid s with
   | mk r s1 =>
     cases r with
@@ -758,16 +768,14 @@ theorem exec_kill_presv {I : State → Prop} {tid : Nat} (L : LeafV tid I) (n u 
 
 /-- the veto branch: a future with the single done-callback `popProc`, the kill started detached
     with that future as its waiter, `False` returned -/
-theorem spawnAfterAdopt_veto (rec : Rec) (u pid : Nat) (s1 : State) (hv : (callHook u "after_spawn" s1).1 = false) :
-    spawnAfterAdopt rec u pid s1 =
+theorem spawnAfterAdopt_veto (rec : Rec) (u pid now : Nat) (s1 : State) (hv : (callHook u "after_spawn" s1).1 = false) :
+    spawnAfterAdopt rec u pid now s1 =
       (SpawnRes.rFalse,
         (armTop (callHook u "after_spawn" s1).2.nextId
           (rec (.call (.killProcess u pid none none) (.top (callHook u "after_spawn" s1).2.nextId))
             (newTop [.popProc u pid] (callHook u "after_spawn" s1).2).2).2).2) := by
   unfold spawnAfterAdopt
   simp only [bind]
-  have h1 : (nowMs s1).2 = s1 := rfl
-  rw [h1]
   erw [if_pos (by rw [hv]; rfl)]
   rfl
 
@@ -777,12 +785,12 @@ theorem spawnAfterAdopt_veto (rec : Rec) (u pid : Nat) (s1 : State) (hv : (callH
     the detached `kill_process` pops anything) and in which the pop is pending — the future of the
     kill still carries the `popProc` done-callback, or (the kill finished at once) that callback
     sits on the loop's ready queue; running that callback is `processes.pop(pid)`. -/
-theorem C04_veto_keeps_listed_until_callback (n u pid : Nat) (s1 : State)
+theorem C04_veto_keeps_listed_until_callback (n u pid now : Nat) (s1 : State)
     (hv : (callHook u "after_spawn" s1).1 = false) :
-    (∀ x, (getW x (spawnAfterAdopt (exec n) u pid s1).2).1.pids = (getW x s1).1.pids) ∧
-    PopPending (callHook u "after_spawn" s1).2.nextId u pid (spawnAfterAdopt (exec n) u pid s1).2 ∧
+    (∀ x, (getW x (spawnAfterAdopt (exec n) u pid now s1).2).1.pids = (getW x s1).1.pids) ∧
+    PopPending (callHook u "after_spawn" s1).2.nextId u pid (spawnAfterAdopt (exec n) u pid now s1).2 ∧
     ∀ v, runTopCb v (.popProc u pid) = popPid u pid := by
-  rw [spawnAfterAdopt_veto (exec n) u pid s1 hv]
+  rw [spawnAfterAdopt_veto (exec n) u pid now s1 hv]
   generalize htid : (callHook u "after_spawn" s1).2.nextId = tid
   refine ⟨?_, ?_, fun _ => rfl⟩
   · intro x
@@ -807,14 +815,12 @@ theorem C04_veto_keeps_listed_until_callback (n u pid : Nat) (s1 : State)
     · right; exact h
 
 
-/-- the accept branch: nothing but the `spawn` event -/
-theorem spawnAfterAdopt_accept (rec : Rec) (u pid : Nat) (s1 : State) (hv : (callHook u "after_spawn" s1).1 = true) :
-    spawnAfterAdopt rec u pid s1 =
-      (SpawnRes.started s1.k.now, (notify u "spawn" (some pid) "-" (callHook u "after_spawn" s1).2).2) := by
+/-- the accept branch: nothing but the `spawn` event; the result is the start time read before the fork -/
+theorem spawnAfterAdopt_accept (rec : Rec) (u pid now : Nat) (s1 : State) (hv : (callHook u "after_spawn" s1).1 = true) :
+    spawnAfterAdopt rec u pid now s1 =
+      (SpawnRes.started now, (notify u "spawn" (some pid) "-" (callHook u "after_spawn" s1).2).2) := by
   unfold spawnAfterAdopt
   simp only [bind]
-  have h1 : (nowMs s1).2 = s1 := rfl
-  rw [h1]
   erw [if_neg (by rw [hv]; simp)]
   rfl
 
@@ -827,7 +833,7 @@ theorem C04_spawn_registers_before_hooks (rec : Rec) (u tries wid pid : Nat) (s 
     (hw : ∃ w ∈ s.ws, w.uid = u)
     (hwid : nextWid (getW u s).1.np (usedWids u s).1 = some wid)
     (hsp : spawnAdopt u wid s = (some pid, s1)) :
-    spawnTry rec u (tries + 1) s = spawnAfterAdopt rec u pid s1 ∧
+    spawnTry rec u (tries + 1) s = spawnAfterAdopt rec u pid s.k.now s1 ∧
     (getW u s1).1.pids = (getW u s).1.pids ++ [pid] ∧
     (∃ o ∈ s1.objs, o.pid = pid ∧ o.wid = wid) ∧
     pid ∈ s1.k.procs.map (·.pid) := by
@@ -895,8 +901,8 @@ example : (∃ w ∈ exS.ws, w.uid = 2) ∧ nextWid (getW 2 exS).1.np (usedWids 
 example : (spawnAdopt 1 1 (initState exCfg [{ execFail := true }] 0)).1 = none := by decide +kernel
 -- the veto
 example : (callHook 1 "after_spawn" exV).1 = false ∧ (getW 1 exV).1.pids = [100] := by decide +kernel
-example : (spawnAfterAdopt (exec 100) 1 100 exV).2.ready.length = 1 ∧
-    (getW 1 (spawnAfterAdopt (exec 100) 1 100 exV).2).1.pids = [100] := by decide +kernel
+example : (spawnAfterAdopt (exec 100) 1 100 0 exV).2.ready.length = 1 ∧
+    (getW 1 (spawnAfterAdopt (exec 100) 1 100 0 exV).2).1.pids = [100] := by decide +kernel
 -- … and for real: the whole start with a rejecting hook ends stopped, nothing listed, the worker reaped
 example : (run (initState vetoCfg [{}] 0) [.start]).ws.map (fun w => (w.pids, w.status)) = [([], .stopped)] ∧
     (run (initState vetoCfg [{}] 0) [.start]).k.procs.map (fun p => (p.pid, p.st)) = [(100, .gone)] := by
